@@ -1156,8 +1156,10 @@ impl PacketReceiver for RtpTransport {
                     Ok(()) => {}
                     Err(mpsc::error::TrySendError::Full(_)) => {}
                     Err(mpsc::error::TrySendError::Closed(_)) => {
+                        // Forget this sender only. The registry lock was released after the
+                        // lookup: a new receiver may have been bound to this SSRC meanwhile,
+                        // and removing the SSRC entry by key would take that binding away.
                         let mut listeners = self.listeners.lock();
-                        listeners.by_ssrc.remove(&ssrc);
                         listeners.remove_sender(&tx);
                     }
                 }
